@@ -227,7 +227,7 @@ def spec_strategy(cat: str):
     if cat == "point":
         return _point_spec()
     if cat == "context":
-        return st.tuples(st.just("text"), st.sampled_from(("P2WSH", "TAPSCRIPT", "", "p2wsh", "P2SH", "x", "\x00", "P2WSH "))).map(list)
+        return st.tuples(st.just("text"), st.sampled_from(("P2WSH", "tapscript", "TAPSCRIPT", "", "p2wsh", "P2SH", "x", "\x00", "P2WSH "))).map(list)
     if cat == "borsig":
         return st.one_of(st.tuples(st.just("borobj"), st.lists(st.lists(st.sampled_from(INT_EDGES), max_size=3), max_size=3), st.integers(0, 40)).map(list), _octets_spec())
     if cat == "rings":
